@@ -176,38 +176,62 @@ def c_matrix_identity(ctx, la, n, tag=''):
 
 
 ROUTINES = ('lu_decomposition', 'lu_solve', 'lu_factor', 'matrix_inverse', 'matrix_determinant', 'matrix_pivot')
+CONTRACT = {'lu_decomposition': c_lu_decomposition, 'lu_solve': c_lu_solve, 'lu_factor': c_lu_factor,
+            'matrix_inverse': c_matrix_inverse, 'matrix_determinant': c_matrix_determinant, 'matrix_pivot': c_matrix_pivot}
+NEEDS_NONSINGULAR = ('lu_solve', 'lu_factor', 'matrix_inverse', 'matrix_determinant')
+
+# sign patterns (row major) that pin the outcome of every abs() of the pivot search: used where the unconstrained
+# n x n case has too many sign/order paths for the tier; the unconstrained sizes below them cover zero entries
+SIGNS = {2: ['++++', '+--+', '-++-'],
+         3: ['+++++++++', '+-+-+-+-+', '--+-+++-+'],
+         4: ['++++++++++++++++', '+-+--+-++-+--+-+']}
 
 
-def call_with_fresh_args(ctx, la, name, n, pfx, tag, nonsingular=True, checked=True):
-    """creates fully symbolic arguments for routine `name` and runs its contract (checked) or just the call.
-    Returns (args, snapshots) for the argument-not-mutated obligations."""
+def pin_signs(ctx, A, signs):
+    if signs is None:
+        return
+    flat = [x for r in A for x in r]
+    for x, s in zip(flat, signs):
+        ctx.assume(ctx.gt(x, 0) if s == '+' else ctx.lt(x, 0))
+
+
+def fresh_args(ctx, name, n, pfx, signs=None, m=1):
+    """fully symbolic arguments of routine `name` (+ the non-singularity precondition where the statement has it)"""
     A = sym_matrix(ctx, n, n, pfx + 'a')
-    if nonsingular and name != 'matrix_pivot' and name != 'lu_decomposition':
+    pin_signs(ctx, A, signs)
+    if name in NEEDS_NONSINGULAR:
         ctx.assume(ctx.ne(det_leibniz(A), 0))
     args = [A]
     if name in ('lu_solve', 'lu_factor'):
-        args.append(sym_matrix(ctx, n, 1, pfx + 'b'))
-    snaps = [clone(a) for a in args]
-    if checked:
-        {'lu_decomposition': c_lu_decomposition, 'lu_solve': c_lu_solve, 'lu_factor': c_lu_factor,
-         'matrix_inverse': c_matrix_inverse, 'matrix_determinant': c_matrix_determinant,
-         'matrix_pivot': c_matrix_pivot}[name](ctx, la, *args, tag=tag)
-    else:
-        try:
-            getattr(la, name)(*args)
-        except ZeroDivisionError:
-            pass
-    return args, snaps
+        args.append(sym_matrix(ctx, n, m, pfx + 'b'))
+    return args
+
+
+def plain_call(la, name, args):
+    try:
+        return getattr(la, name)(*args)
+    except ZeroDivisionError:
+        return None
 
 
 # ------------------------------------------------------------------------------------------------
 # solvers, inverse, determinant, pivoting: defining equations
 # ------------------------------------------------------------------------------------------------
-def _sizes(lo, hi, **kw):
-    return [dict(n=n, **kw) for n in range(lo, hi + 1)]
+def _shapes(free, pinned, m=None):
+    """free: sizes with unconstrained signs; pinned: sizes run once per sign pattern of SIGNS"""
+    out = []
+    for n in free:
+        out.append(dict(n=n, signs=None))
+    for n in pinned:
+        for sg in SIGNS[n]:
+            out.append(dict(n=n, signs=sg))
+    if m is not None:
+        out = [dict(o, m=(m if o['n'] > 1 else 1)) for o in out]
+    return out
 
 
-@scenario('C16', fns=['linalg.lu_decomposition', '_linalg.doolittle'], quick=_sizes(1, 3), thorough=_sizes(1, 5))
+@scenario('C16', fns=['linalg.lu_decomposition', '_linalg.doolittle'],
+          quick=[dict(n=n) for n in (1, 2, 3)], thorough=[dict(n=n) for n in (1, 2, 3, 4, 5)])
 def lu_decomposition(ctx, n):
     """requires: A fully symbolic n x n; no pivot vanishes (decided by the path)
        ensures : L unit lower triangular, U upper triangular, L U = A"""
@@ -223,53 +247,197 @@ def lu_solve(ctx, n, m):
     """requires: det(A) != 0, b any n x m
        ensures : the call raises ZeroDivisionError (zero pivot, no result) or returns x with A x = b"""
     la = ctx.geomdl('linalg')
-    A = sym_matrix(ctx, n, n, 'a')
-    b = sym_matrix(ctx, n, m, 'b')
-    ctx.assume(ctx.ne(det_leibniz(A), 0))
+    A, b = fresh_args(ctx, 'lu_solve', n, '', m=m)
     c_lu_solve(ctx, la, A, b)
 
 
 @scenario('C16', fns=['linalg.lu_factor', 'linalg.matrix_pivot', 'linalg.lu_decomposition', 'linalg.forward_substitution',
                       'linalg.backward_substitution'],
-          quick=[dict(n=1, m=1), dict(n=2, m=1), dict(n=2, m=2), dict(n=3, m=1)],
-          thorough=[dict(n=1, m=1), dict(n=2, m=2), dict(n=3, m=2), dict(n=4, m=1)])
-def lu_factor(ctx, n, m):
+          quick=_shapes((1, 2), (3,), m=2), thorough=_shapes((1, 2, 3), (4,), m=2))
+def lu_factor(ctx, n, signs, m):
     """requires: det(A) != 0, b any n x m
        ensures : the call raises ZeroDivisionError (no result) or returns x with A x = b  (partial pivoting included)"""
     la = ctx.geomdl('linalg')
-    A = sym_matrix(ctx, n, n, 'a')
-    b = sym_matrix(ctx, n, m, 'b')
-    ctx.assume(ctx.ne(det_leibniz(A), 0))
+    A, b = fresh_args(ctx, 'lu_factor', n, '', signs, m=m)
     c_lu_factor(ctx, la, A, b)
 
 
-@scenario('C16', fns=['linalg.matrix_inverse', 'linalg.matrix_pivot', 'linalg.lu_solve'], quick=_sizes(1, 3), thorough=_sizes(1, 4))
-def matrix_inverse(ctx, n):
+@scenario('C16', fns=['linalg.matrix_inverse', 'linalg.matrix_pivot', 'linalg.lu_solve'],
+          quick=_shapes((1, 2), (3,)), thorough=_shapes((1, 2, 3), (4,)))
+def matrix_inverse(ctx, n, signs):
     """requires: det(A) != 0
        ensures : the call raises ZeroDivisionError (no result) or returns A^-1: A A^-1 = I = A^-1 A"""
     la = ctx.geomdl('linalg')
-    A = sym_matrix(ctx, n, n, 'a')
-    ctx.assume(ctx.ne(det_leibniz(A), 0))
+    A, = fresh_args(ctx, 'matrix_inverse', n, '', signs)
     c_matrix_inverse(ctx, la, A)
 
 
 @scenario('C16', fns=['linalg.matrix_determinant', 'linalg.matrix_pivot', 'linalg.lu_decomposition', '_linalg.doolittle'],
-          quick=_sizes(1, 3), thorough=_sizes(1, 4))
-def matrix_determinant(ctx, n):
+          quick=_shapes((1, 2), (3,)), thorough=_shapes((1, 2, 3), (4,)))
+def matrix_determinant(ctx, n, signs):
     """requires: det(A) != 0 (non-singular)
        ensures : matrix_determinant(A) == Leibniz determinant"""
     la = ctx.geomdl('linalg')
-    A = sym_matrix(ctx, n, n, 'a')
-    ctx.assume(ctx.ne(det_leibniz(A), 0))
+    A, = fresh_args(ctx, 'matrix_determinant', n, '', signs)
     c_matrix_determinant(ctx, la, A)
 
 
-@scenario('C16', fns=['linalg.matrix_pivot'], quick=_sizes(1, 3), thorough=_sizes(1, 4))
-def matrix_pivot(ctx, n):
+@scenario('C16', fns=['linalg.matrix_pivot'], quick=_shapes((1, 2, 3), ()), thorough=_shapes((1, 2, 3), (4,)))
+def matrix_pivot(ctx, n, signs):
     """requires: any n x n matrix
-       ensures : P is a permutation matrix, the returned matrix is P m, sign = det P; sign=False returns the pair"""
+       ensures : P is a permutation matrix, the returned matrix is P m, sign = det P"""
+    la = ctx.geomdl('linalg')
+    A, = fresh_args(ctx, 'matrix_pivot', n, '', signs)
+    c_matrix_pivot(ctx, la, A)
+
+
+# ------------------------------------------------------------------------------------------------
+# concrete matrices of the larger sizes of the quantifier (1..8), with and without needed row swaps
+# ------------------------------------------------------------------------------------------------
+def _family(kind, n):
+    if kind == 'vandermonde':            # rows (i+1)^j: non-singular, pivoting reorders the rows
+        return [[(i + 1) ** j for j in range(n)] for i in range(n)]
+    if kind == 'tridiagonal':            # 2 on the diagonal, -1 beside it: no swap needed
+        return [[2 if i == j else (-1 if abs(i - j) == 1 else 0) for j in range(n)] for i in range(n)]
+    if kind == 'rational':               # Hilbert-like 1/(i+j+1) + identity
+        return [[Fraction(1, i + j + 1) + (1 if i == j else 0) for j in range(n)] for i in range(n)]
+    if kind == 'cyclic':                 # cyclic shift of diag(1..n): every row has to move, zero leading pivot
+        return [[(i + 1) if j == (i + 1) % n else 0 for j in range(n)] for i in range(n)]
+    raise ValueError(kind)
+
+
+@scenario('C16', fns=['linalg.lu_solve', 'linalg.lu_factor', 'linalg.matrix_inverse', 'linalg.matrix_determinant',
+                      'linalg.matrix_pivot', 'linalg.lu_decomposition'],
+          quick=[dict(kind=k, n=n) for k in ('vandermonde', 'tridiagonal', 'rational', 'cyclic') for n in (4, 6)],
+          thorough=[dict(kind=k, n=n) for k in ('vandermonde', 'tridiagonal', 'rational', 'cyclic') for n in (4, 5, 6, 7, 8)])
+def concrete_matrix(ctx, kind, n):
+    """requires: the stated non-singular integer / rational matrix, right-hand side with one symbolic column and one
+                 concrete column
+       ensures : each of the contracts above (each routine on its own copy of the arguments)"""
+    la = ctx.geomdl('linalg')
+    A = [[ctx.lit(x) for x in r] for r in _family(kind, n)]
+    b = [[ctx.num('b%d' % i), ctx.lit(i * i - 3)] for i in range(n)]
+    for name in ROUTINES:
+        la.matrix_identity.cache_clear()         # every routine from the clean state (histories: see below)
+        args = [clone(A)] + ([clone(b)] if name in ('lu_solve', 'lu_factor') else [])
+        if name == 'lu_decomposition':
+            if kind == 'cyclic':
+                continue                          # leading pivot is zero: outside that contract
+            c_lu_decomposition(ctx, la, *args)
+        else:
+            CONTRACT[name](ctx, la, *args)
+
+
+# ------------------------------------------------------------------------------------------------
+# "always returns": strictly diagonally dominant matrices, spline collocation matrices
+# ------------------------------------------------------------------------------------------------
+def assume_diag_dominant(ctx, A, by):
+    """|a_ii| > sum_{j != i} |a_ij| (rows) or the same down the columns, written without abs():
+       for every sign vector s:  a_ii > sum s_j a_ij,   or for every s:  -a_ii > sum s_j a_ij"""
+    n = len(A)
+    for i in range(n):
+        off = [A[i][j] if by == 'rows' else A[j][i] for j in range(n) if j != i]
+        pos, neg = [], []
+        for s in itertools.product((1, -1), repeat=len(off)):
+            tot = _sum(sj * x for sj, x in zip(s, off))
+            pos.append(ctx.gt(A[i][i], tot))
+            neg.append(ctx.gt(-A[i][i], tot))
+        ctx.assume(ctx.any(ctx.all(*pos), ctx.all(*neg)))
+
+
+@scenario('C16', fns=['linalg.lu_solve', 'linalg.lu_decomposition', '_linalg.doolittle', 'linalg.forward_substitution',
+                      'linalg.backward_substitution'],
+          quick=[dict(n=n, by=by) for n in (1, 2, 3) for by in ('rows', 'columns')],
+          thorough=[dict(n=n, by=by) for n in (1, 2, 3, 4) for by in ('rows', 'columns')])
+def diagonally_dominant(ctx, n, by):
+    """requires: A strictly diagonally dominant (by rows / by columns), b any
+       ensures : lu_solve returns a result (no zero pivot) and A x = b"""
     la = ctx.geomdl('linalg')
     A = sym_matrix(ctx, n, n, 'a')
-    c_matrix_pivot(ctx, la, A)
-    r = la.matrix_pivot(A)
-    ctx.check_true('matrix_pivot.sign_false_returns_pair', len(r) == 2)
+    b = sym_matrix(ctx, n, 1, 'b')
+    assume_diag_dominant(ctx, A, by)
+    returned = c_lu_solve(ctx, la, A, b)
+    ctx.check_true('lu_solve.returns_a_result', returned, 'ZeroDivisionError (zero pivot) on a strictly diagonally dominant matrix')
+
+
+@scenario('C16', fns=['linalg.lu_solve', 'linalg.lu_decomposition', '_linalg.doolittle', 'fitting._build_coeff_matrix',
+                      'fitting.compute_knot_vector'],
+          quick=[dict(p=1, pts=2), dict(p=1, pts=3), dict(p=1, pts=4), dict(p=2, pts=3), dict(p=2, pts=4), dict(p=2, pts=5),
+                 dict(p=3, pts=4), dict(p=3, pts=5)],
+          thorough=[dict(p=p, pts=p + 1 + k) for p in (1, 2, 3, 4) for k in (0, 1, 2, 3) if not (p == 4 and k == 3)])
+def collocation(ctx, p, pts):
+    """requires: interpolation parameters 0 = u_0 < u_1 < ... < u_m = 1 (symbolic), knot vector by averaging (the real
+                 fitting.compute_knot_vector), collocation matrix N_j(u_i) by the real fitting._build_coeff_matrix
+       ensures : lu_solve returns a result (no zero pivot) and A x = b for a symbolic right-hand side"""
+    la = ctx.geomdl('linalg')
+    fit = ctx.geomdl('fitting')
+    inner = [ctx.num('u%d' % i) for i in range(1, pts - 1)]
+    uk = [ctx.lit(0)] + inner + [ctx.lit(1)]
+    ctx.assume_sorted(uk, strict=True)
+    kv = fit.compute_knot_vector(p, pts, uk)
+    A = fit._build_coeff_matrix(p, kv, uk, [[0]] * pts)
+    ctx.check_true('collocation.shape', len(A) == pts and all(len(r) == pts for r in A))
+    b = sym_matrix(ctx, pts, 1, 'b')
+    snap = clone(A)
+    returned = c_lu_solve(ctx, la, A, b)
+    ctx.check_true('lu_solve.returns_a_result', returned, 'ZeroDivisionError (zero pivot) on a spline collocation matrix')
+    ctx.check_true('lu_solve.matrix_not_mutated', same_objects(A, snap))
+
+
+# ------------------------------------------------------------------------------------------------
+# history independence
+# ------------------------------------------------------------------------------------------------
+def _state_shapes(tier):
+    out = [dict(f=f, n=n, signs=None) for f in ROUTINES for n in (1, 2)]
+    for f in ROUTINES:
+        pats = SIGNS[3][:1] if tier == 'quick' else SIGNS[3]
+        if f in ('lu_decomposition', 'lu_solve'):
+            out.append(dict(f=f, n=3, signs=None))
+        else:
+            out += [dict(f=f, n=3, signs=sg) for sg in pats]
+    return out
+
+
+@scenario('C16', fns=['linalg.matrix_identity', 'linalg.matrix_pivot', 'linalg.matrix_inverse', 'linalg.matrix_determinant',
+                      'linalg.lu_factor', 'linalg.lu_solve', 'linalg.lu_decomposition'],
+          quick=lambda: _state_shapes('quick'), thorough=lambda: _state_shapes('thorough'))
+def state_preserved(ctx, f, n, signs):
+    """requires: clean module state, routine f called on any admissible argument (whether it returns or raises)
+       ensures : the module-level memo still equals a fresh computation - matrix_identity(k) is the k x k identity for
+                 k = 1..n+1 - and the arguments of f are unchanged.  (With this invariant the single-call contracts
+                 above hold after every history.)"""
+    la = ctx.geomdl('linalg')
+    args = fresh_args(ctx, f, n, '', signs)
+    snaps = [clone(a) for a in args]
+    plain_call(la, f, args)
+    for a, s, nm in zip(args, snaps, ('matrix', 'rhs')):
+        ctx.check_true('after[%s].argument_%s_unchanged' % (f, nm), same_objects(a, s))
+    c_matrix_identity(ctx, la, n, tag='after[%s].' % f)
+
+
+def _history_shapes(tier):
+    first = ROUTINES if tier == 'thorough' else ('matrix_pivot', 'matrix_inverse', 'lu_factor', 'matrix_determinant', 'lu_solve')
+    out = []
+    for g in first:
+        for f in ROUTINES:
+            out.append(dict(g=g, f=f, n=2, gsigns='+--+', fsigns=None))     # g swaps rows iff |ga10| > |ga00|
+            if tier == 'thorough':
+                out.append(dict(g=g, f=f, n=2, gsigns=None, fsigns=None))
+                out.append(dict(g=g, f=f, n=3, gsigns=SIGNS[3][1], fsigns=SIGNS[3][2]))
+    return out
+
+
+@scenario('C16', fns=['linalg.matrix_pivot', 'linalg.matrix_inverse', 'linalg.matrix_determinant', 'linalg.lu_factor',
+                      'linalg.lu_solve', 'linalg.lu_decomposition', 'linalg.matrix_identity'],
+          quick=lambda: _history_shapes('quick'), thorough=lambda: _history_shapes('thorough'))
+def history(ctx, g, f, n, gsigns, fsigns):
+    """requires: clean module state; g called on any admissible argument args' (returns or raises), then f on args
+       ensures : f satisfies its own contract (the answer does not depend on the earlier call), args' is not changed
+                 by the call of f"""
+    la = ctx.geomdl('linalg')
+    gargs = fresh_args(ctx, g, n, 'g', gsigns)
+    fargs = fresh_args(ctx, f, n, 'f', fsigns)
+    gsnap = [clone(a) for a in gargs]
+    plain_call(la, g, gargs)
+    CONTRACT[f](ctx, la, *fargs, tag='after[%s].' % g)
+    ctx.check_true('after[%s;%s].first_arguments_unchanged' % (g, f), all(same_objects(a, s) for a, s in zip(gargs, gsnap)))
